@@ -83,7 +83,7 @@ def build(ct):
     s.committed = {}   # path -> (fn name, x)
     # a second live store object on the same DBFS (another notebook / cluster); ("switch",) makes the other one current
     import dds._api as api
-    s.stores = [api._store_var, None]
+    s.stores = [api._store(), None]
     s.cur = 0
     return s
 
@@ -155,11 +155,11 @@ def apply(s, op):
     k = op[0]
     if k == "switch":
         import dds._api as api
-        s.stores[s.cur] = api._store_var
+        s.stores[s.cur] = api._store()
         s.cur = 1 - s.cur
         if s.stores[s.cur] is None:
             dds.set_store("dbfs", internal_dir="dbfs:/int", data_dir="dbfs:/data", dbutils=s.db, commit_type=s.ct)
-            s.stores[s.cur] = api._store_var
+            s.stores[s.cur] = api._store()
         else:
             dds.set_store(s.stores[s.cur])
         return probs
@@ -217,8 +217,8 @@ def key(s):
     from ..seqmc.models import canon
     def hid(st):
         return canon({k_: v for k_, v in vars(st).items() if k_ not in ("_dbutils", "_registry")}) if st is not None else None
-    stores = list(getattr(s, "stores", [api._store_var, None]))
-    stores[getattr(s, "cur", 0)] = api._store_var
+    stores = list(getattr(s, "stores", [api._store(), None]))
+    stores[getattr(s, "cur", 0)] = api._store()
     return (s.x, tuple(sorted(s.committed.items())), tuple(files), getattr(s, "cur", 0), tuple(hid(st) for st in stores))
 
 
@@ -280,7 +280,7 @@ def check_legacy(i):
             open(os.path.join(root, "i", "blobs", key_), "wb").write(raw)
             open(os.path.join(root, "i", "blobs", key_ + ".meta"), "w").write(json.dumps({"protocol": ref, "timestamp_millis": 1}))
             dds.set_store("local", internal_dir=os.path.join(root, "i"), data_dir=os.path.join(root, "d"))
-        st = api._store_var
+        st = api._store()
         r = call(lambda: st.fetch_blob(key_))
         ok = r[0] == "ok" and (r[1].equals(want) if hasattr(want, "equals") and hasattr(r[1], "equals") else (type(r[1]) is type(want) and r[1] == want))
         if not ok:
